@@ -65,7 +65,7 @@ impl Runner {
 			if let Some(b) = t {
 				tiles.insert(c.coord, compress(b, *comp));
 			}
-			map.insert(format!("s{i}"), SourceSpec { tiles, compression: *comp, yields: (c.sources.len() - i) as u32 * c.stagger, fail: vec![], format: TileFormat::PBF });
+			map.insert(format!("s{i}"), SourceSpec { tiles, compression: *comp, yields: (c.sources.len() - i) as u32 * c.stagger, fail: vec![], format: TileFormat::PBF, pyramid: None });
 		}
 		let sources: Sources = Arc::new(Mutex::new(map));
 		let factory = make_factory(&self.dir, sources);
@@ -263,7 +263,7 @@ fn emit_faults(out: &mut Out, runner: &Runner, rng: &mut Rng, tiles: Vec<Vec<u8>
 		}
 		plain.push(payload.clone());
 		codecs.push(format!("{declared:?}<-{actual:?}"));
-		map.insert(format!("s{i}"), SourceSpec { tiles: HashMap::from([(coord, compress_as(&payload, actual))]), compression: declared, yields: rng.below(3) as u32, fail, format: TileFormat::PBF });
+		map.insert(format!("s{i}"), SourceSpec { tiles: HashMap::from([(coord, compress_as(&payload, actual))]), compression: declared, yields: rng.below(3) as u32, fail, format: TileFormat::PBF, pyramid: None });
 	}
 	let sources: Sources = Arc::new(Mutex::new(map));
 	let factory = make_factory(&runner.dir, sources);
@@ -325,6 +325,143 @@ fn emit_faults(out: &mut Out, runner: &Runner, rng: &mut Rng, tiles: Vec<Vec<u8>
 	}
 }
 
+/// Sources with DIFFERENT declared coverages, in every order: boxes that are disjoint, nested, overlapping, confined
+/// to one 32×32 block or straddling a block border, and sources that do not cover the streamed zoom level at all.
+/// The stream over a box that leaves the first / a middle source's coverage must deliver exactly the tiles the
+/// lookups deliver (same bytes), and every streamed tile must hold the features of all sources that have it, in order.
+fn emit_coverage(out: &mut Out, runner: &Runner, rng: &mut Rng) {
+	let z: u8 = *rng.pick(&[5u8, 6, 6, 7]);
+	let max = (1u32 << z) - 1;
+	let k = rng.range(2, 3) as usize;
+	// coverage boxes at level z (None = the source has no tiles at this level: it covers another zoom range)
+	let shapes = |rng: &mut Rng| -> Option<(u32, u32, u32, u32)> {
+		Some(match rng.below(8) {
+			0 => return None,
+			1 => (0, 0, max / 2, max),               // west half
+			2 => (max / 2 + 1, 0, max, max),         // east half
+			3 => (0, 0, max, max),                   // everything
+			4 => (3, 5, 9, 12),                      // inside the first block
+			5 => (28.min(max), 28.min(max), 35.min(max), 35.min(max)), // straddles the 32-border (where the level has one)
+			6 => (max.saturating_sub(6), max.saturating_sub(6), max, max), // last block corner
+			_ => {
+				let x0 = rng.below(max as u64 + 1) as u32;
+				let y0 = rng.below(max as u64 + 1) as u32;
+				(x0, y0, (x0 + rng.below(40) as u32).min(max), (y0 + rng.below(40) as u32).min(max))
+			}
+		})
+	};
+	let mut map = HashMap::new();
+	let mut src_tiles: Vec<HashMap<(u32, u32), Vec<u8>>> = vec![];
+	let mut desc = vec![];
+	for i in 0..k {
+		let shape = shapes(rng);
+		let mut pyramid = TileBBoxPyramid::new_empty();
+		let mut tiles = HashMap::new();
+		let mut plain = HashMap::new();
+		match shape {
+			None => {
+				// shallower or deeper source
+				let other = if rng.chance(1, 2) { z - 1 } else { z + 1 };
+				pyramid.include_bbox(&TileBBox::new_full(other).unwrap());
+			}
+			Some((x0, y0, x1, y1)) => {
+				pyramid.include_bbox(&TileBBox::new(z, x0, y0, x1, y1).unwrap());
+				if rng.chance(1, 2) {
+					pyramid.include_bbox(&TileBBox::new_full(z - 1).unwrap());
+				}
+				// tiles: the corners of the box and a few inside
+				let mut coords = vec![(x0, y0), (x1, y1), (x0, y1), (x1, y0)];
+				for _ in 0..rng.below(4) {
+					coords.push((x0 + rng.below((x1 - x0 + 1) as u64) as u32, y0 + rng.below((y1 - y0 + 1) as u64) as u32));
+				}
+				for (x, y) in coords {
+					let t = ITile { layers: vec![ILayer { name: b"roads".to_vec(), features: vec![IFeature { id: Some((i as u64) * 1000 + (x as u64 % 1000)), tags: vec![0, 0], gtype: Some(1), geom: Some(vec![9, 2, 2]) }], keys: vec![format!("k{i}").into_bytes()], values: vec![IValue::UInt(y as u64)], extent: None, version: None }] };
+					let b = encode_tile(&t, &PLAIN);
+					tiles.insert((z, x, y), b.clone());
+					plain.insert((x, y), b);
+				}
+			}
+		}
+		desc.push(format!("{shape:?}"));
+		src_tiles.push(plain);
+		map.insert(format!("s{i}"), SourceSpec { tiles, compression: TileCompression::Uncompressed, yields: rng.below(3) as u32, fail: vec![], format: TileFormat::PBF, pyramid: Some(pyramid) });
+	}
+	let sources: Sources = Arc::new(Mutex::new(map));
+	let factory = make_factory(&runner.dir, sources);
+	let vpl = format!("from_vectortiles_merged [ {} ]", (0..k).map(|i| format!("from_container filename=s{i}")).collect::<Vec<_>>().join(", "));
+	let rt = &runner.rt;
+	let key = format!("coverage z{z} {}", desc.join(" | "));
+	out.eval(&key, true);
+	out.count(&format!("coverage_zoom_{z}"));
+	let Ok(Ok(op)) = catch(|| rt.block_on(factory.operation_from_vpl(&vpl))) else {
+		out.oracle(false, "C10 coverage: sources with different coverages cannot be merged", json!({"kind": "coverage_build"}), json!({"sources": desc}));
+		return;
+	};
+	// stream box: the whole level, or a box around a 32-border
+	let bbox = if rng.chance(1, 2) || max < 40 { TileBBox::new_full(z).unwrap() } else { TileBBox::new(z, 20, 20, 45.min(max), 45.min(max)).unwrap() };
+	let streamed = catch(|| rt.block_on(async { op.get_tile_stream(bbox.clone()).await.collect().await }));
+	let detail = json!({"zoom": z, "sources": desc, "box": format!("{bbox:?}")});
+	let Ok(streamed) = streamed else {
+		out.oracle(false, "C10 coverage: get_tile_stream panics", json!({"kind": "coverage_stream_panic"}), detail);
+		return;
+	};
+	let stream_map: HashMap<(u32, u32), Vec<u8>> = streamed.into_iter().map(|(c, b)| ((c.x, c.y), b.into_vec())).collect();
+	// every coordinate of the box at which some source has a tile
+	let mut missing = 0;
+	let mut differs = 0;
+	let mut content = 0;
+	let mut checked = 0;
+	let mut first_bad = String::new();
+	let mut all: Vec<(u32, u32)> = src_tiles.iter().flat_map(|m| m.keys().cloned()).collect();
+	all.sort();
+	all.dedup();
+	for (x, y) in all {
+		let c3 = TileCoord3::new(x, y, z).unwrap();
+		if !bbox.contains3(&c3) {
+			continue;
+		}
+		checked += 1;
+		let look = match catch(|| rt.block_on(op.get_tile_data(&c3))) {
+			Ok(Ok(Some(b))) => Some(b.into_vec()),
+			_ => None,
+		};
+		let ins: Vec<Vec<SLayer>> = src_tiles.iter().filter_map(|m| m.get(&(x, y))).map(|b| sem_tile(&decode_tile(b).unwrap())).collect();
+		let want = expected(&ins);
+		match stream_map.get(&(x, y)) {
+			None => {
+				missing += 1;
+				if first_bad.is_empty() {
+					first_bad = format!("tile ({z},{x},{y}) of {} source(s) is missing from the stream", ins.len());
+				}
+			}
+			Some(sb) => {
+				if look.as_ref() != Some(sb) {
+					differs += 1;
+					if first_bad.is_empty() {
+						first_bad = format!("streamed tile ({z},{x},{y}) differs from its lookup");
+					}
+				}
+				let got = decode_tile(sb).map(|t| sem_tile(&t));
+				if !got.as_ref().is_some_and(|g| g.len() == want.len() && g.iter().zip(&want).all(|(a, b)| a.name == b.name && a.feats == b.feats)) {
+					content += 1;
+					if first_bad.is_empty() {
+						first_bad = format!("streamed tile ({z},{x},{y}) does not hold the features of all {} sources that have it: {}", ins.len(), dump_bytes(sb, false));
+					}
+				}
+			}
+		}
+	}
+	out.count_n("coverage_tiles_checked", checked);
+	for (k2, _) in &stream_map {
+		if !src_tiles.iter().any(|m| m.contains_key(k2)) {
+			differs += 1;
+			first_bad = format!("the stream delivers a tile at ({z},{},{}) where no source has one", k2.0, k2.1);
+		}
+	}
+	let kind = if missing > 0 { "coverage_tile_missing" } else if content > 0 { "coverage_features_missing" } else { "coverage_stream_differs" };
+	out.oracle(missing + differs + content == 0, &format!("C10 coverage: {first_bad} (missing {missing}, content {content}, differing {differs})"), json!({"kind": kind}), detail);
+}
+
 fn opts(rng: &mut Rng) -> GenOpts {
 	GenOpts {
 		names: ["roads", "water", "pois", "Straße"].iter().map(|s| s.as_bytes().to_vec()).collect(),
@@ -376,12 +513,16 @@ pub fn run(args: &Args) {
 	}
 	// "all tile sources must provide vector tiles": a source of another format must be refused when the pipeline is built
 	for (k, formats) in [[TileFormat::PBF, TileFormat::PNG], [TileFormat::PNG, TileFormat::PBF], [TileFormat::PBF, TileFormat::PBF]].iter().enumerate() {
-		let map: HashMap<String, SourceSpec> = formats.iter().enumerate().map(|(i, f)| (format!("s{i}"), SourceSpec { tiles: HashMap::new(), compression: TileCompression::Uncompressed, yields: 0, fail: vec![], format: *f })).collect();
+		let map: HashMap<String, SourceSpec> = formats.iter().enumerate().map(|(i, f)| (format!("s{i}"), SourceSpec { tiles: HashMap::new(), compression: TileCompression::Uncompressed, yields: 0, fail: vec![], format: *f, pyramid: None })).collect();
 		let factory = make_factory(&runner.dir, Arc::new(Mutex::new(map)));
 		let built = catch(|| runner.rt.block_on(factory.operation_from_vpl("from_vectortiles_merged [ from_container filename=s0, from_container filename=s1 ]")));
 		let accepted = matches!(built, Ok(Ok(_)));
 		out.eval(&format!("formats {k}"), true);
 		out.oracle(accepted == (k == 2), &format!("C10 build: sources {formats:?} accepted={accepted}"), json!({"kind": "non_vector_source"}), json!({"formats": format!("{formats:?}")}));
+	}
+	// sources with different coverages, streamed over boxes that leave them
+	for _ in 0..args.n(150, 3000) {
+		emit_coverage(&mut out, &runner, &mut rng);
 	}
 	// faults after open, payload classes, reuse
 	for _ in 0..args.n(300, 5000) {
